@@ -207,7 +207,7 @@ def main(tier, seed):
                      "masked: last column of SCHEDULER_FINISHED (measured solver time) "
                      "and path-valued input_flag rows"],
         required_stats=("grid_points", "inprocess_double_runs"), chunk=1,
-        budget_s=280 if tier == "quick" else 3000, confirm_job=confirm_job)
+        budget_s=280 if tier == "quick" else 900, confirm_job=confirm_job)
 
 
 def replay(path):
